@@ -25,7 +25,7 @@ class Refused(Exception):
 
 
 EXC_KIND = {"ValueError": ".valueError", "RegexNotMatchError": ".regexNotMatch", "MissingRequiredField": ".missingRequiredField"}
-BIN = {"Add": "add", "Sub": "sub", "Mult": "mul"}
+BIN = {"Add": "add", "Sub": "sub", "Mult": "mul", "Pow": "pow"}
 CMP = {"Lt": "lt", "LtE": "le", "Gt": "gt", "GtE": "ge", "Eq": "eq", "NotEq": "ne"}
 
 
@@ -671,6 +671,7 @@ FUNCTIONS = [
     ("trackEventFromParsedData", "instrument", "TrackEvent.from_parsed_data"),
     ("globalEventFromParsedData", "globalevents", "GlobalEvent.from_parsed_data"),
     ("anchorFromParsedData", "sync", "AnchorEvent.from_parsed_data"),
+    ("timeSignatureFromParsedData", "sync", "TimeSignatureEvent.from_parsed_data"),
 ]
 
 
